@@ -88,6 +88,19 @@ CHECKS = {
              "str.format/int(x,2)/Enum/Decimal semantics.",
         tech="Coq proof (finite sweeps by vm_compute lifted by lemmas; list induction for enums) + translator + exhaustive correspondence",
     ),
+    "C18": dict(
+        text="Coq theorem C18_registries_complete_from_any_entry_point: a model of Python's import machinery (sys.modules "
+             "with partially initialised modules, parent packages first, from-import of a not-yet-bound name fails, "
+             "registration at class-statement time, the sorted non-recursive directory scan) run over the per-module "
+             "event lists regenerated from all 370 modules' source: for EVERY module as the first import the import "
+             "succeeds and every loaded registry holds exactly the model classes' ids, each once. Finite and complete "
+             "(vm_compute over all entry points, lifted). Tie: one fresh interpreter per module; final sys.modules and "
+             "registry keys compared with the extracted model's state.",
+        ref="DESIGN.md 5.18",
+        note="Expected keys come from the model classes only (never from the live registries). NO_CONDITION (0) and "
+             "UNKNOWN are placeholders without transcoders by design. Trusted: translate_imports.py.",
+        tech="Coq proof (exhaustive finite evaluation of an import-semantics model, lifted) + source-to-Coq translator + per-module process correspondence",
+    ),
     "C19": dict(
         text="Coq theorems: the model decoder is total and its fuel adequate for every byte string (OutOfFuel unreachable: "
              "each chunk-loop iteration consumes >= 8 bytes, each record >= 1), for the chunk loop and for every "
